@@ -106,9 +106,16 @@ def parseLine : List String → Option Line
     pure (.instr i cm)
   | _ => none
 
+def splitBar : List String → List (List String)
+  | [] => [[]]
+  | t :: ts =>
+    match splitBar ts with
+    | [] => [[t]]
+    | g :: gs => if t == "|" then [] :: g :: gs else (t :: g) :: gs
+
 /-- Parse `header | line | line …` given as whitespace-separated tokens. -/
 def parseProgram (toks : List String) : Option Program :=
-  let groups := (toks.splitBy (· == "|"))
+  let groups := splitBar toks
   match groups with
   | [hd] :: rest => do
     let h ← parseCmt hd
